@@ -630,8 +630,8 @@ _define("C11", {"mod": "verif_kani_c11", "host": "engine/src/rhs_types/wildcard.
 _share("C11", "c13_nesting_step")
 
 _define("C17", {"mod": "verif_kani_c17", "host": "engine/src/list_matcher.rs", "file": "engine/c17_lists.rs"}, {
-    "name": "c17_list_name_lex", "mod": "verif_kani_c17", "timeout": 1500, "mem_gb": 20, "rss_gb": 12,
-    "encodes": ["<ListName as Lex>::lex"], "symbolic": "`$` + <= 2 ASCII characters", "bound": "3 chars, unwind 5",
+    "name": "c17_list_name_lex", "mod": "verif_kani_c17", "timeout": 1800, "mem_gb": 40, "rss_gb": 20,
+    "encodes": ["<ListName as Lex>::lex"], "symbolic": "`$` + <= 2 ASCII characters", "bound": "3 chars, unwind 4",
     "oracle": "name = longest run of a-z 0-9 _ . ; rejected if empty or starting/ending with a dot; rest untouched",
     "min_covers": 4})
 
